@@ -1,0 +1,89 @@
+//! Verification hooks (compiled only with `--cfg gm_rs_verif`). Additive: nothing in the
+//! library calls into this module unless the cfg is set, and with the cfg off it does not exist.
+use std::cell::RefCell;
+use std::collections::VecDeque;
+
+pub use crate::fields::fn64;
+pub use crate::fields::fp64;
+pub use crate::fields::FieldModOperation;
+pub use crate::sm2p256_table::SM2P256_PRECOMPUTED;
+
+use crate::error::Sm2Result;
+use crate::p256_ecc::Point;
+use crate::u256::U256;
+
+/// What the byte source behind `random_u256` does on this thread.
+#[derive(Clone, Copy, PartialEq, Eq, Debug)]
+pub enum RngMode {
+    /// untouched CSPRNG, nothing recorded
+    Off,
+    /// untouched CSPRNG, candidates and accepted scalars are logged
+    Record,
+    /// candidates come from the installed queue; an empty queue panics with `VERIF_RNG_EXHAUSTED`
+    Scripted,
+}
+
+#[derive(Clone, Debug, Default)]
+pub struct RngLog {
+    pub offered: Vec<[u8; 32]>,
+    pub accepted: Vec<U256>,
+}
+
+thread_local! {
+    static MODE: RefCell<RngMode> = RefCell::new(RngMode::Off);
+    static QUEUE: RefCell<VecDeque<[u8; 32]>> = RefCell::new(VecDeque::new());
+    static LOG: RefCell<RngLog> = RefCell::new(RngLog::default());
+}
+
+pub fn rng_set(mode: RngMode, queue: Vec<[u8; 32]>) {
+    MODE.with(|m| *m.borrow_mut() = mode);
+    QUEUE.with(|q| *q.borrow_mut() = queue.into_iter().collect());
+    LOG.with(|l| *l.borrow_mut() = RngLog::default());
+}
+
+pub fn rng_take_log() -> RngLog {
+    LOG.with(|l| std::mem::take(&mut *l.borrow_mut()))
+}
+
+pub fn rng_queue_len() -> usize {
+    QUEUE.with(|q| q.borrow().len())
+}
+
+/// Called by `random_u256` right after the CSPRNG filled `buf`.
+pub fn rng_candidate(buf: &mut [u8; 32]) {
+    let mode = MODE.with(|m| *m.borrow());
+    match mode {
+        RngMode::Off => {}
+        RngMode::Record => LOG.with(|l| l.borrow_mut().offered.push(*buf)),
+        RngMode::Scripted => {
+            let next = QUEUE.with(|q| q.borrow_mut().pop_front());
+            match next {
+                Some(c) => {
+                    *buf = c;
+                    LOG.with(|l| l.borrow_mut().offered.push(c));
+                }
+                None => panic!("VERIF_RNG_EXHAUSTED"),
+            }
+        }
+    }
+}
+
+/// Called by `random_u256` with the scalar it is about to return.
+pub fn rng_accepted(v: &U256) {
+    let mode = MODE.with(|m| *m.borrow());
+    if mode != RngMode::Off {
+        LOG.with(|l| l.borrow_mut().accepted.push(*v));
+    }
+}
+
+pub fn random_u256() -> U256 {
+    crate::fields::fp64::random_u256()
+}
+
+pub fn point_from_byte(b: &[u8]) -> Sm2Result<Point> {
+    Point::from_byte(b)
+}
+
+pub fn exchange_key(e: &crate::exchange::Exchange) -> Option<Vec<u8>> {
+    e.k.clone()
+}
